@@ -38,6 +38,11 @@ impl C01 {
         // integers next to both ends of the i32 range: an increment across either end is refused
         l.push(L::Set { admin: false, key: K1, val: "2147483647" });
         l.push(L::Set { admin: false, key: K1, val: "-2147483647" });
+        // values that are nearly integers: blank-padded, signed, zero-padded, decimal, exponent (an increment
+        // accepts exactly what is an integer as it stands and refuses the rest without changing it)
+        for v in [" 5", "5 ", "+5", "007", "5.0", "1e1"] {
+            l.push(L::Set { admin: false, key: K1, val: v });
+        }
         l.push(L::Set { admin: true, key: KS, val: "s1" });
         l.push(L::Set { admin: false, key: KS, val: "s2" });
         for k in [K1, K2] {
